@@ -46,7 +46,24 @@ fn on_panic(ctx: &mut Ctx, what: &str, loc: &str, msg: &str, detail: Value) {
 fn run_on<C: DateRoll>(ctx: &mut Ctx, cal: &C, spec: &CalSpec, starts: &[i64], rng: &mut Rng) {
     let lo = *starts.iter().min().unwrap() - PAD;
     let hi = *starts.iter().max().unwrap() + PAD;
-    let bits = CalBits::build(cal, lo, hi);
+    // eligibility comes from the calendar's DESCRIPTION (week mask, holiday list, members, settlement members),
+    // not from the object under test: a wrong predicate of the object shows here before any date is adjusted
+    let bits = match CalBits::from_spec(spec, lo, hi) {
+        Some(b) => b,
+        None => {
+            ctx.harness_error("calendar description does not resolve".into());
+            return;
+        }
+    };
+    ctx.asserted(2 * (hi - lo + 1) as u64);
+    if let Some((z, which)) = bits.first_difference(&CalBits::build(cal, lo, hi)) {
+        ctx.violation(
+            &format!("C05|eligible-days-differ-from-definition|{}|{}", which, spec.kind()),
+            json!({"calendar": spec.describe(), "date": fmt_z(z), "predicate": which, "object_says": if which == "is_bus_day" { cal.is_bus_day(&to_ndt(z)) } else { cal.is_settlement(&to_ndt(z)) },
+                   "definition": "business day in every member; settlement day = business day in every settlement member (always if none)"}),
+        );
+        return;
+    }
     let probe = Probe::new(cal, PROBE_BUDGET);
     let sd = spec.describe();
     let mut panicked_sigs: std::collections::HashSet<String> = Default::default();
@@ -280,7 +297,7 @@ impl Prop for C05 {
         tier.pick(2_000_000, 50_000_000)
     }
     fn rule(&self) -> String {
-        "The C04 calendar zoo (built-ins, named combinations, random Cal / UnionCal with hostile holiday sets and settlement calendars). For every chosen start date (business and non-business): ALL 256 values of the i8 day count x both settlement flags for add_bus_days (incl. inverse without settlement, rejection of non-business starts), lag and add_days (modifier cycling over all 5), plus bus_date_range to a business end point up to 150 days later. Oracle: rank/select over the bus/settle bit-vector. A quarter of add_bus_days calls run through the probing proxy (10^6 probe budget). distinct_nontrivial = distinct (calendar, business start, n, flag) judged.".into()
+        "The C04 calendar zoo (built-ins, named combinations, random Cal / UnionCal with hostile holiday sets and settlement calendars). For every chosen start date (business and non-business): ALL 256 values of the i8 day count x both settlement flags for add_bus_days (incl. inverse without settlement, rejection of non-business starts), lag and add_days (modifier cycling over all 5), plus bus_date_range to a business end point up to 150 days later. Oracle: rank/select over the bus/settle bit-vector. A quarter of add_bus_days calls run through the probing proxy (10^6 probe budget). distinct_nontrivial = distinct (calendar, business start, n, flag) judged. Eligible days (business / settlement) are derived from each calendar's description - week mask, holiday list, members and settlement members - and the object's own predicates must agree with that before any result is judged; one calendar in four is exercised inside the CalType container.".into()
     }
     fn assumptions(&self) -> Vec<String> {
         vec![
